@@ -1,6 +1,7 @@
 CONSTANTS
   Sigma = {"0", "1", "9", "b", "e", "_", ".", "+", "-", "x", "o", "p", "i"}
   L = 5
+  LH = 5
   StrMode = "quick"
 SPECIFICATION MCSpec
 INVARIANTS GrammarAgree Disjoint IntRoundTrip SeparatorsIgnored SmallIntegerFloats
